@@ -48,6 +48,51 @@ def pb_varint_field_range(buf, start, end, field_no):
     return 0, 0
 
 
+def structural_bytes(enc_type, data):
+    """Indices of the tag and length bytes of the protobuf fields of a 'msg' / 'pkmsg' ciphertext (for a pkmsg also
+    those of the embedded message): the bytes whose damage changes how the rest is parsed."""
+    data = bytes(data)
+    out = []
+
+    def walk(start, end, depth):
+        i = start
+        try:
+            while i < end:
+                tag = data[i]
+                if tag & 0x80:
+                    return
+                out.append(i)
+                wt, fn = tag & 7, tag >> 3
+                i += 1
+                if wt == 0:
+                    while data[i] & 0x80:
+                        i += 1
+                    i += 1
+                elif wt == 2:
+                    ln = 0
+                    shift = 0
+                    while True:
+                        b = data[i]
+                        out.append(i)
+                        i += 1
+                        ln |= (b & 0x7F) << shift
+                        shift += 7
+                        if not b & 0x80:
+                            break
+                    if enc_type == "pkmsg" and depth == 0 and fn == 4 and ln > 10:
+                        walk(i + 1, i + ln - 8, 1)    # embedded message: version byte, fields, 8 byte MAC
+                    i += ln
+                else:
+                    return
+        except IndexError:
+            return
+    if enc_type == "msg":
+        walk(1, len(data) - 8, 1)
+    elif enc_type == "pkmsg":
+        walk(1, len(data), 0)
+    return [i for i in out if 0 <= i < len(data)]
+
+
 def whisper_counter_range(enc_type, data):
     """Byte range of the message counter (WhisperMessage field 2) inside a 'msg' or 'pkmsg' ciphertext."""
     data = bytes(data)
@@ -346,7 +391,24 @@ class Server(object):
             if encs:
                 target = encs[int(pos[1] * len(encs)) % len(encs)]
                 data = bytearray(target.data)
-                i = min(len(data) - 1, int(pos[0] * len(data)))
+                # 40 % of the faults land in the structured head of the Signal message (version, ratchet key, counters; for a
+                # pkmsg also the outer fields in front of the embedded message), the rest anywhere: the head is a small part of
+                # the bytes but holds most of the distinct ways a damaged message can be mis-handled
+                head = 45
+                if target["type"] == "pkmsg":
+                    lo4, hi4 = pb_field_range(bytes(data), 1, 4)
+                    head = min(len(data), (lo4 + 48) if hi4 > lo4 else 120)
+                elif target["type"] == "skmsg":
+                    head = 12
+                head = min(head, len(data))
+                sb = structural_bytes(target["type"], data) if pos[0] < 0.15 else []
+                if sb:
+                    i = sb[int(pos[0] / 0.15 * len(sb)) % len(sb)]
+                    self.stat("corrupt_structural_byte")
+                elif pos[0] < 0.4:
+                    i = min(len(data) - 1, int(pos[0] / 0.4 * head))
+                else:
+                    i = min(len(data) - 1, int((pos[0] - 0.4) / 0.6 * len(data)))
                 if target["type"] == "pkmsg":
                     # a changed byte inside the identity-key field of a pkmsg is a changed identity, which the
                     # recipient must refuse (C17) rather than answer with a retry: keep the fault outside that field
